@@ -1,4 +1,92 @@
-"""C16 — symbolic dimensions compute, print and re-parse with integer semantics.  (log at the bottom of this docstring)
+"""C16 — symbolic dimensions compute, print and re-parse with integer semantics.
+
+Decided by: Coq theorems (coq/theories/C16/Property.v, all closed under the global context) about the
+executable model C16/Model.v, tied to /repo on every run by (a) Gen/C16Gen.v — the _ALLOWED_FUNCTIONS table,
+the operator sets of every precedence level, the `op ==` chains, which _parse_* method calls which, the
+tokenizer's character tests and the assumptions put on symbols, re-read from _symbolic_shapes.py (fail closed)
+— and (b) three correspondence checks run inside Coq through case files.
+
+MODEL (C16/Model.v)
+  expr  := ESym name | EInt Z | ENeg | EUn (floor|ceiling|Abs|sign|sqrt) | EBin (+ - * / Mod ** Max Min)
+           `a // b` is EFloorDiv = floor(a / b) and trunc is ETrunc = sign(x) * floor(Abs(x)): the constructor
+           trees ir-py asks SymPy to build (parser and SymbolicDim overloads alike).
+  eval  : env -> expr -> option Q, exact (QArith, Qred); None = outside the evaluated fragment (division or
+          modulo by zero, 0 ** negative, non-integer exponent, sqrt of anything but a perfect square integer).
+  subst : partial binding.   lex: get_token as a character state machine (ASCII classes).
+  parsers_at n: one level of the recursive descent per unit of fuel; level n+1 calls level n only after
+          consuming a token; parse_tokens gives fuel = number of tokens + 1.
+  prt / render / pr: model printer (fully parenthesised, SymPy's function names, one blank after every token).
+
+THEOREMS (all proved, no _partial)
+  C16_tables_current            generated operator sets / descent shape / tokenizer tests = the model's
+  C16_function_table_covers     floor, ceiling, Abs, sign, sqrt, Mod, Max, Min are in the generated table with the
+                                right meaning; every table entry is a model constructor
+  C16_parser_sound_complete     forall ts e, parse_tokens ts = Some e <-> derives_ref ts e   (reference grammar as
+                                inductive relations: left-assoc + - and * / // %, right-assoc **, unary minus
+                                looser than **, signed exponent, function calls from the table)
+  C16_reference_unambiguous     one tree per token string
+  C16_reference_is_left_recursive   the `x (op x)*` tail relation folded to the left = textbook left recursion
+  C16_parser_total              fuel `length ts + 1` is never exhausted (None of parse_tokens means "raises")
+  C16_partial_consistent        eval s2 (subst s1 e) = eval (s1 ++ s2) e
+  C16_eval_integer              on integer operands: + - * neg max min, floor/ceil identity, // = Z.div, % = Z.modulo,
+                                ceil(a/b) = -((-a)/b), trunc(a/b) = Z.quot a b
+  C16_eval_rounding             floor = Qfloor, ceil x = -floor(-x), trunc = sgn * floor|x| on any exact value
+  C16_print_parse               forall e with valid identifiers: parse_dim (pr e) = Some e' and eval s e' = eval s e
+                                for EVERY binding s (tokenizer included: decimal digits, identifiers, ** and //)
+
+TIE (measured every run, numbers in evidence/C16.json)
+  (i)  parser: the REAL tokenizer/parser is run with the module global `sympy` (and the values of
+       _ALLOWED_FUNCTIONS) rebound to a stub that records constructor calls; the recorded tree / raise is
+       embedded in case files and Coq checks `parse_dim text = expected` (grammar-generated strings with random
+       whitespace and dotted names, character-level mutations, ~90 hand-written edge strings; accept and reject).
+  (ii) string evaluation: real parser + real SymPy evaluate(bindings) vs eval (parse_dim text) in Coq.
+  (iii) trees: random build trees (depth <= 4 quick / 5 thorough) applied to real SymbolicDim objects through
+       + - * / // % neg math.floor/ceil/trunc (ints on either side; reflected operators where they exist) and
+       through the dimension TEXT for max/min/pow/abs/sign; observed: value text, evaluate(all), evaluate(part)
+       then evaluate(rest) (directly and through the residual's text), SymbolicDim(value).evaluate, dim_param
+       written by serde and read back, simplify().evaluate, SymbolicDim(simplify().value).evaluate,
+       Shape.evaluate / Shape.simplify, free_symbols.  Coq evaluates the constructor tree (to_model) exactly,
+       checks subst/partial, and parses + evaluates every text the implementation produced.
+  ORACLE (property statement, public API): exact Fraction arithmetic on the build tree (independent of Coq);
+       for grammar strings the meaning given by PYTHON'S OWN parser (ast) over exact numbers.
+
+READINGS
+  * expressions whose exact value does not exist under the binding are outside the statement;
+  * a non-integer exact value must come back as the dimension whose text is that rational ("7/2");
+  * `3 // N` and `3 % N` raise TypeError (SymbolicDim has no __rfloordiv__/__rmod__): the expression cannot be
+    built, so nothing is claimed about it (noted as a gap, not a violation); the generator writes such ints as
+    SymbolicDim("3");
+  * any exception type counts as "rejects"; a simplify() that does not return in 6 s is not judged.
+
+MODELLED, NOT VERIFIED
+  SymPy's algebra, automatic evaluation, simplify and printer (oracle / trusted base); non-ASCII characters;
+  Max()/Min() without arguments (SymPy -oo/oo: stub and model reject; the real parser accepts `max()`, which the
+  documented grammar does not contain); int() on > 4300 digits; str.isidentifier fast path (= one-token case).
+
+FINDINGS (known_findings.d/C16.json)
+  fixed 70fa588  -N**2 parsed as (-N)**2                      fixed b337019  ceiling/Abs/sign not parseable
+  fixed 417b84b  simplify() returned Piecewise (text not parseable; ZeroDivisionError from the unused branch)
+  known sympy-simplify-raises: sympy.simplify raises (ValueError "nan is not comparable", PrecisionExhausted) on
+       floor(Min(N, sign(3 - N))/batch) and similar; SymbolicDim.simplify propagates it.  Attributed only when
+       sympy.simplify ALONE raises the same exception class on the same constructor tree.  Proposed fix:
+       proposed_fixes/C16-simplify-best-effort.diff (return the unsimplified dimension on any SymPy failure).
+  known sympy-autoeval-min/-max/-mod: SymPy 1.14 itself evaluates Min(3, floor(3/(batch*x1))) to 3,
+       Max(K, K/Max(D, K)) at K=1,D=2 to 1/2, Mod(-_d*Mod(_d, a), a) to (a-1)*Mod(_d**2, a).  Attribution rule: a
+       failure is one of these only if every minimal failing subtree is rooted at that operator AND SymPy alone
+       (same constructor calls, no ir-py code) gives the same wrong value; such cases are left out of the Coq
+       tie (the model assumes SymPy's value is the exact one).  Anything else is reported.
+
+MUTANTS of /repo tried in a scratch worktree (all reported VIOLATION with a concrete replay, seed 0, quick):
+  M1 exponent parsed by _parse_power (no signed exponent)   proof tables_current + parser tie; replay "4*2**-1"
+  M2 identifier continuation without '.'                     tables_current + parser tie; replay "a.b"
+  M3 "ceiling" removed from _ALLOWED_FUNCTIONS               lookup_fn1/print_parse proof + tree tie; replay ceil(N/2)
+  M4 __rsub__ computes expr - other                          tree oracle; replay 3 - N
+  M6 evaluate returns int for any rational                   oracle + tie; replay N/2 at N=1
+  M7 __trunc__ = floor                                       oracle; replay trunc(-N/2) at N=1
+  M8 unary operand parsed by _parse_power                    tables_current + parser tie; replay "( ( - - 1 ) )"
+  M9 evaluate(partial) drops the partial substitution        oracle; replay (N - M) with M bound first
+  and, before it was committed, the simplify fix applied in the worktree made the then-known finding stale
+  (reported as broken obligation known-finding-stale).
 """
 
 from __future__ import annotations
@@ -1035,6 +1123,25 @@ def run_case_files(ck, name: str, rows: list, mk, per: int = 400) -> list[int]:
 
 # --------------------------------------------------------------------------- known findings
 
+def _sympy_simplify_raises(case: dict, obs: dict) -> str | None:
+    """Exception class raised by sympy.simplify ALONE on what ir-py asked SymPy to build (the constructor tree
+    of the build tree, or the constructor tree the stub records for the dimension's text), else None."""
+    import sympy
+    cands = [lambda: sympy_build(to_model(case["tree"]))]
+    if obs.get("text"):
+        r = stub_parse(obs["text"])[0]
+        if r[0] == "ok" and _tree_ok(r[1]):
+            cands.append(lambda: sympy_build(r[1]))
+    for mk in cands:
+        try:
+            _with_alarm(20, lambda: sympy.simplify(mk()))
+        except _Timeout:
+            continue
+        except Exception as e:  # noqa: BLE001
+            return type(e).__name__
+    return None
+
+
 def _known_keys(ck) -> set[str]:
     return {k["key"] for k in ck._known if k.get("status") == "known"}
 
@@ -1043,6 +1150,8 @@ def _known_key(ck, case: dict, obs: dict, bad: list[str]) -> str | None:
     """Map a failing case to known finding key(s) ('+'-joined) by SITE, else None.
       simplify-returns-piecewise : the failed observations are the re-parse of simplify()'s text / a
                                 ZeroDivisionError of simplify().evaluate, and that text contains Piecewise
+      sympy-simplify-raises   : simplify() itself raised and sympy.simplify ALONE raises the same exception
+                                class on the same constructor tree
       sympy-autoeval-<op>     : every minimal failing subtree is rooted at <op> and SymPy ALONE (same
                                 constructor calls, no ir-py code) gives the same wrong value
     A failure that mixes a known site with anything else is not known."""
@@ -1067,6 +1176,12 @@ def _known_key(ck, case: dict, obs: dict, bad: list[str]) -> str | None:
         rest = [b_ for b_ in rest if b_.split(":")[0] not in ("simplify", "shape_simplify")]
         if len(rest) < n0:
             keys.append("simplify-returns-piecewise")
+    if "sympy-simplify-raises" in known and obs.get("simplify", [""])[0] == "raise" and "simplify_text" not in obs \
+            and _sympy_simplify_raises(case, obs) == obs["simplify"][1]:
+        n0 = len(rest)
+        rest = [b_ for b_ in rest if b_.split(":")[0] not in ("simplify", "shape_simplify")]
+        if len(rest) < n0:
+            keys.append("sympy-simplify-raises")
     if rest:
         attr = sympy_attribution(case, obs, rest)
         if attr is None:
@@ -1361,7 +1476,7 @@ def check_trees(ck, cases: list[dict], report) -> None:
             ck.hist("known_finding_hits", key)
             obs = dict(obs)
             obs.pop("simplify_reparse", None)
-            if "simplify-returns-piecewise" in key:
+            if "simplify-returns-piecewise" in key or "sympy-simplify-raises" in key:
                 obs.pop("simplify", None)
             if "sympy-autoeval" in key:
                 in_coq = False     # SymPy's value contradicts exact arithmetic here: the finding, not the model
